@@ -1,7 +1,9 @@
 CONSTANTS
   MaxPred = 1
-  MaxBl = 1
-  MaxLine = 1
+  MaxBl = 0
+  MaxLine = 0
+  LinePred = 1
+  LineBl = 1
   MaxCnt = 2
   MaxTests = 2
   Dists = {"Z", "P", "INF"}
